@@ -120,3 +120,33 @@ func (n *Node) ProcBlock(b *pb.InternalBlock) error {
 	n.chainMu.Unlock()
 	return n.withRecovery(func() error { return m.ProcBlock(n.reqCtx(), CloneBlock(b)) })
 }
+
+// TruncatingConsensus is the null consensus whose pre-mining step can order a truncation once:
+// set Target to the id of a main-chain block and the next production round first rolls ledger
+// and state back to it (what the chained-BFT consensuses do when they roll back to their
+// highest certified block).
+type TruncatingConsensus struct {
+	NullConsensus
+	Target []byte
+}
+
+func (c *TruncatingConsensus) ProcessBeforeMiner(timestamp int64) ([]byte, []byte, error) {
+	t := c.Target
+	c.Target = nil
+	return t, nil, nil
+}
+
+// Mine runs one whole production round of the engine's real miner (Miner.mining: state walk if
+// the ledger is ahead, the consensus' pre-mining step incl. a truncation it orders, packBlock,
+// confirmBlockForMiner, asynchronous broadcast) and returns the block it produced.
+func (n *Node) Mine(proposer *Key) (*pb.InternalBlock, error) {
+	before := n.Ledger.GetMeta().TipBlockid
+	if err := n.withRecovery(func() error { return n.Miner(proposer).VerifMining(n.reqCtx()) }); err != nil {
+		return nil, err
+	}
+	tip := n.Ledger.GetMeta().TipBlockid
+	if string(tip) == string(before) {
+		return nil, errors.New("mining reported success but the ledger tip did not move")
+	}
+	return n.Ledger.QueryBlock(tip)
+}
